@@ -166,6 +166,11 @@ func genContent(t *simkit.Tape, kind string) []byte {
 		cfg.Soup = false
 		cfg.Huge = 0
 		cfg.Colons = false
+		if cfg.Deep > 130 {
+			// -m serialises every selected element's subtree: quadratic in the depth
+			// (8.6 million scheduler steps for 513 levels); the reader engine keeps the deeper pages
+			cfg.Deep = 130
+		}
 		if cfg.MaxNodes > 25 {
 			cfg.MaxNodes = 25
 		}
